@@ -205,14 +205,10 @@ func (c *FnCtx) applyHavoc(st, old *State, ms *ModSet, mayAlloc bool) {
 			for _, r := range ms.refs[h] {
 				t = sto(t, r, c.smt.declareFresh("hv."+h, elemSort))
 			}
-			if mayAlloc {
-				// freshly allocated objects may be initialised by the callee
-				nh := c.smt.declareFresh(h, srt)
-				c.smt.assume(fmt.Sprintf("(forall ((r Int)) (! (=> (select %s r) (= (select %s r) (select %s r))) :pattern ((select %s r))))", oldAlloc, nh, t, nh), "callee frame: "+h)
-				st.heaps[h] = nh
-			} else {
-				c.heapSet(st, h, srt, t)
-			}
+			// Objects the callee allocates lie at references that were unallocated before the
+			// call; the caller knows nothing about the heap there (the heap at unallocated
+			// references is unconstrained), so their initialisation needs no separate havoc.
+			c.heapSet(st, h, srt, t)
 			continue
 		}
 		nh := c.smt.declareFresh(h, srt)
@@ -236,7 +232,7 @@ func (c *FnCtx) applyHavoc(st, old *State, ms *ModSet, mayAlloc bool) {
 	}
 	if mayAlloc {
 		na := c.smt.declareFresh("alloc", allocSort)
-		c.smt.assume(fmt.Sprintf("(forall ((r Int)) (! (=> (select %s r) (select %s r)) :pattern ((select %s r))))", oldAlloc, na, na), "allocation only grows")
+		c.smt.assume(fmt.Sprintf("(forall ((r Int)) (! (=> (select %s r) (select %s r)) :pattern ((select %s r)) :pattern ((select %s r))))", oldAlloc, na, na, oldAlloc), "allocation only grows")
 		st.heaps["alloc"] = na
 		// typed heaps not mentioned keep their values on allocated objects only; heaps that the
 		// callee does not mention at all are left untouched (fresh objects of those types
@@ -698,5 +694,5 @@ func (c *FnCtx) havocAllBut(st *State, preserve []string, except map[string]bool
 		st.heaps[k] = v
 	}
 	na := c.heapGet(st, "alloc", allocSort)
-	c.smt.assume(fmt.Sprintf("(forall ((r Int)) (! (=> (select %s r) (select %s r)) :pattern ((select %s r))))", oldAlloc, na, na), "allocation only grows")
+	c.smt.assume(fmt.Sprintf("(forall ((r Int)) (! (=> (select %s r) (select %s r)) :pattern ((select %s r)) :pattern ((select %s r))))", oldAlloc, na, na, oldAlloc), "allocation only grows")
 }
